@@ -28,7 +28,7 @@ import (
 //	  stored  replicas,ready,current,updated,currentRev,updateRev,observedGen   (set.Status as cached)
 //	  pods  ord:phase:ready:term:rev:idOk:stOk;...     phase N(one) P R S F U ; ord -1 = name that does not parse
 //	  faults verb:ord[:kind];...    verb 0 create 1 delete 2 update 3 status-write; kind exists|conflict|notfound|timeout|invalid (typed API error)
-//	obs : acts=<create:o:rev|delete:o:id|update:o,...> status=<rep,ready,cur,upd,curRev,updRev,gen|-> written=<...|-> out=ok|err|panic
+//	obs : acts=<create:o:rev|delete:o:id|update:o,...> status=<rep,ready,cur,upd,curRev,updRev,gen|-> written=<...|-> out=ok|err|panic tplbad=<creates built from another template than their revision label names>
 func init() {
 	engines["reconcile"] = &Engine{Gen: genReconcile, Enum: enumReconcile, Run: runReconcile}
 }
@@ -233,6 +233,7 @@ func mkPod(set *apps.StatefulSet, p rcPod) *v1.Pod {
 }
 
 type recPodControl struct {
+	tplBad int // creates whose pod template is not the one recorded by the revision its label names
 	acts   []string
 	faults map[string]bool
 	kinds  map[string]string
@@ -262,6 +263,13 @@ func ordOfName(pod *v1.Pod) int { _, o := sts.VerifGetParentNameAndOrdinal(pod);
 func (r *recPodControl) CreateStatefulPod(set *apps.StatefulSet, pod *v1.Pod) error {
 	o := ordOfName(pod)
 	r.acts = append(r.acts, fmt.Sprintf("create:%d:%s", o, pod.Labels[kubeapps.StatefulSetRevisionLabel]))
+	// the revision named X records the template with image img-X (mkRevision): the pod must be built from it
+	// (a phase-less pod object of the snapshot that the reconcile re-submits is the harness's own object: not judged)
+	if _, snapshot := r.ids[pod]; !snapshot {
+		if len(pod.Spec.Containers) != 1 || pod.Spec.Containers[0].Image != "img-"+pod.Labels[kubeapps.StatefulSetRevisionLabel] {
+			r.tplBad++
+		}
+	}
 	if k := fmt.Sprintf("0:%d", o); r.faults[k] {
 		return r.fail(k, "create")
 	}
@@ -381,7 +389,7 @@ func runReconcile(line string) string {
 	if out == "panic" {
 		stS = "-"
 	}
-	res := fmt.Sprintf("acts=%s status=%s written=%s out=%s", strings.Join(pc.acts, ","), stS, fmtStatus(su.written), out)
+	res := fmt.Sprintf("acts=%s status=%s written=%s out=%s tplbad=%d", strings.Join(pc.acts, ","), stS, fmtStatus(su.written), out, pc.tplBad)
 	if site != "" {
 		res += " site=" + strings.ReplaceAll(site, " ", "_")
 	}
